@@ -273,7 +273,20 @@ func cloneAt(calls []Call) int {
 			h = (h ^ uint32(c.Fn[i])) * 16777619
 		}
 		h = (h ^ uint32(len(c.Items))) * 16777619
+		// (the texts and values count too: a chain of one shape is cloned for some identifiers and literals and
+		// built plainly for others)
+		for _, t := range c.Str {
+			for i := 0; i < len(t); i++ {
+				h = (h ^ uint32(t[i])) * 16777619
+			}
+		}
+		if c.Val != nil {
+			for i := 0; i < len(c.Val.V); i++ {
+				h = (h ^ uint32(c.Val.V[i])) * 16777619
+			}
+		}
 	}
+	h ^= h >> 15
 	if h%3 != 0 {
 		return -1
 	}
@@ -821,4 +834,18 @@ func (b *Builder) CallGroup(g *jen.Group, name string, c *Call) *jen.Statement {
 		panic("recipe: *Group has no method " + name)
 	}
 	return b.invoke(m, name, c)[0].Interface().(*jen.Statement)
+}
+
+// Seeded returns a decision stream that is a pure function of seed (splitmix64), for checks whose cases
+// carry a number instead of a recorded stream.
+func Seeded(seed uint64) *Decisions {
+	state := seed
+	return &Decisions{Draw: func(n int) int {
+		state += 0x9E3779B97F4A7C15
+		z := state
+		z = (z ^ (z >> 30)) * 0xBF58476D1CE4E5B9
+		z = (z ^ (z >> 27)) * 0x94D049BB133111EB
+		z ^= z >> 31
+		return int(z % uint64(n))
+	}}
 }
